@@ -13,7 +13,11 @@ PROPS_FILES = ["Props/C07.v", "Props/C07_scipy.v"]
 ASSUMPTIONS = [
   "exact arithmetic over Q: starts, bounds, optimiser parameters and scripted draws are dyadic, the recorded acquisition function is an "
   "integer-coefficient quadratic (of the point snapped to a power-of-two grid when the run leaves the dyadics), so every value is exact",
-  "the acquisition function is deterministic and finite (numpy.nanargmax = first maximum)",
+  "the acquisition function is deterministic; it may be UNDEFINED (NaN) at some points - the code's own numpy.nanargmax anticipates that, and "
+  "'all deterministic acquisition functions' does not exclude partial ones: 'the evaluated point of highest value' ranges over the evaluated points "
+  "that have a value, the reported value is a value (never NaN), starting points without a value impose nothing, a trial without a value never "
+  "replaces a member.  A batch without a single defined value makes numpy.nanargmax raise ValueError: nothing is returned, the clauses are then "
+  "void (modelled as an error value, compared by the correspondence).  Infinite values are not modelled",
   "restriction contract (proved for the box / fixed-index case here, C08's subject under linear constraints): every returned point is in the domain "
   "and the batch keeps its length; in the constrained correspondence the model replays the recorded restriction outputs",
   "quasi-random start generation returns the requested number of points (C08/C10); the harness scripts it",
@@ -46,8 +50,18 @@ def fr(x):
   return Fr(float(x))
 
 
+def af_undefined(spec, p):
+  """the recorded function is undefined (NaN) on a union of half-spaces [k, t, above]: x_k > t resp. x_k < t (exact comparison of doubles)"""
+  return any((float(p[k]) > t) if above else (float(p[k]) < t) for k, t, above in spec.get("und") or [])
+
+
 def af_exact(spec, p):
-  """The recorded acquisition function in exact rational arithmetic; returns (value, gradient-like vector)."""
+  """The recorded acquisition function in exact rational arithmetic; returns (value or None where it is undefined, gradient-like vector)."""
+  v, g = af_exact_total(spec, p)
+  return (None if af_undefined(spec, p) else v), g
+
+
+def af_exact_total(spec, p):
   s = spec["snap"]
   y = [Fr(math.floor(fr(c) * s), s) if s else fr(c) for c in p]
   v = sum(a * yi * yi + b * yi for a, b, yi in zip(spec["a"], spec["b"], y)) + spec["cc"] * y[0] * y[-1]
@@ -68,6 +82,9 @@ def make_af(L, spec, dim, rec):
       out = []
       for p in pts:
         v, _ = af_exact(spec, p)
+        if v is None:
+          out.append(float("nan"))
+          continue
         if Fr(float(v)) != v:
           rec["inexact"] = True
         out.append(float(v))
@@ -283,7 +300,29 @@ def gen_point(rng, lb, ub, where):
 
 
 def gen_af(rng, dim, snap):
-  return dict(a=[rng.randint(-3, 1) for _ in range(dim)], b=[rng.randint(-4, 4) for _ in range(dim)], cc=rng.randint(-1, 1), snap=snap)
+  return dict(a=[rng.randint(-3, 1) for _ in range(dim)], b=[rng.randint(-4, 4) for _ in range(dim)], cc=rng.randint(-1, 1), snap=snap, und=[])
+
+
+def gen_undefined(rng, lb, ub, starts, fixed_idx=()):
+  """half-spaces on which the acquisition function has no value: a slab at one side of one coordinate, sometimes two.  Half of the time the
+  slab begins just beyond the (clipped) starting points, so that every start has a value and only later candidates fall into it; otherwise
+  the threshold is anywhere inside the box, on its boundary or (rarely) beyond it - then a start, a whole batch or everything is undefined."""
+  und = []
+  for _ in range(rng.choice([1, 1, 1, 2])):
+    k = rng.randrange(len(lb))
+    above = rng.random() < 0.5
+    if starts and rng.random() < 0.6:
+      clipped = [[min(max(x, l), u) for x, l, u in zip(p, lb, ub)] for p in starts]
+      room = [(j, a) for j in range(len(lb)) if j not in fixed_idx for a in (True, False)
+              if (max(c[j] for c in clipped) < ub[j] if a else min(c[j] for c in clipped) > lb[j])]    # a non-empty slab beyond the starts
+      if room:
+        k, above = rng.choice(room)
+      cs = [c[k] for c in clipped]
+      t = max(cs) if above else min(cs)
+    else:
+      t = rng.choice([dy(rng, lb[k], ub[k])] * 6 + [lb[k], ub[k], lb[k] - 1.0, ub[k] + 1.0])
+    und.append([k, float(t), above])
+  return und
 
 
 def gen_vec(rng, kind):
@@ -308,6 +347,8 @@ def gen_vec(rng, kind):
              ru=[rng.choice(DYADIC_U) for _ in range(7)])
   if rng.random() < 0.15:   # flat acquisition function: every value ties
     inp["af"].update(a=[0] * dim, b=[0] * dim, cc=0)
+  if rng.random() < 0.4:    # partial acquisition function: undefined (NaN) on part of the space
+    inp["af"]["und"] = gen_undefined(rng, lb, ub, (selected or []) + (pool if selected is None or len(selected) < n else []), [k for k, _ in fx])
   if kind == "de":
     inp.update(best1=rng.random() < 0.6, F=rng.choice([0.25, 0.5, 0.75, 1.0]), CR=rng.choice([0.0, 0.25, 0.5, 0.75, 1.0]),
                sel=[[[rng.randrange(max(1, n - 1)) for _ in range(3)] for _ in range(n)] for _ in range(maxiter)],
@@ -371,14 +412,16 @@ def domlit(inp):
 
 def aflit(spec):
   q = lambda l: C.listlit(l, C.qlit)
-  return f"(mkaf {q(spec['a'])} {q(spec['b'])} {C.qlit(spec['cc'])} {C.qlit(spec['snap'])})"
+  und = C.listlit(spec.get("und") or [], lambda u: f"({C.nlit(u[0])}, {C.qlit(float(u[1]))}, {C.blit(u[2])})")
+  return f"(mkaf {q(spec['a'])} {q(spec['b'])} {C.qlit(spec['cc'])} {C.qlit(spec['snap'])} {und})"
 
 
 def obslit(out):
   rec = out["rec"]
   lb = lambda bs: C.listlit(bs, qbatch)
-  return (f"(mkobs {lb(rec['evals'])} {lb(rec['rins'])} {lb(rec['routs'])} {qpt(out['best'])} {C.qlit(out['best_value'])} "
-          f"{qbatch(out['start'])} {qbatch(out['end'])} {C.listlit([float(v) for v in out['vals']], C.qlit)})")
+  oq = lambda v: C.optlit(None if v != v else float(v), C.qlit)     # NaN -> None
+  return (f"(mkobs {lb(rec['evals'])} {lb(rec['rins'])} {lb(rec['routs'])} {qpt(out['best'])} {oq(out['best_value'])} "
+          f"{qbatch(out['start'])} {qbatch(out['end'])} {C.listlit([float(v) for v in out['vals']], oq)})")
 
 
 def adam_tracks(inp, out):
@@ -416,18 +459,26 @@ def coq_case(inp, out):
       vals = C.listlit([None if v != v else float(v) for v in out["vals"]], lambda v: C.optlit(v, C.qlit))
       ob = f"(MsOk {qpt(out['best'])} {qbatch(out['start'])} {qbatch(out['end'])} {vals})"
     return f"CMs {domlit(dict(inp, fixed=[]))} {C.nlit(inp['nm'])} {sel} {qbatch(inp['pool'])} {tab} {ob}"
+  rec = out["rec"]
+  routs = C.listlit(rec["routs"], qbatch)     # the recorded restriction outputs (replayed by the model under linear constraints), also of a run that raised
   if inp["kind"] == "de":
     P = f"(mkde {C.nlit(inp['n'])} {C.nlit(len(inp['lb']))} {C.blit(inp['best1'])} {C.qlit(inp['F'])} {C.qlit(inp['CR'])})"
     ds = C.listlit(list(zip(inp["sel"], inp["us"])),
                    lambda d: "(" + C.listlit(d[0], lambda t: f"({C.nlit(t[0])}, {C.nlit(t[1])}, {C.nlit(t[2])})") + ", " + qbatch(d[1]) + ")")
     ob = "None" if out["error"] else f"(Some {obslit(out)})"
-    return f"CDE {domlit(inp)} {aflit(inp['af'])} {P} {C.nlit(inp['maxiter'])} {sel} {qbatch(inp['pool'])} {ds} {ob}"
-  rec = out["rec"]
-  ups = [[[fr(a) - fr(b) for a, b in zip(ra, rb)] for ra, rb in zip(rec["rins"][i + 1], rec["evals"][i])] for i in range(len(rec["rins"]) - 1)]
+    return f"CDE {domlit(inp)} {aflit(inp['af'])} {P} {C.nlit(inp['maxiter'])} {sel} {qbatch(inp['pool'])} {ds} {routs} {ob}"
+  ups = [[[fr(a) - fr(b) for a, b in zip(ra, rb)] for ra, rb in zip(rec["rins"][i + 1], rec["evals"][i])] for i in range(min(len(rec["rins"]) - 1, len(rec["evals"])))]
   qb = lambda b: C.listlit(b, lambda p: C.listlit(p, C.qlit))
+  if out["error"]:
+    # the run stopped inside evaluate_and_monitor: the updates made so far are recorded, the rest of the script is padding the model never reaches
+    # (it must stop at the same batch, with the same error class)
+    shape = rec["evals"][0] if rec["evals"] else []
+    ups += [[[Fr(0)] * len(row) for row in shape]] * max(0, inp["maxiter"] - 1 - len(ups))
+    return (f"CAdam {domlit(inp)} {aflit(inp['af'])} {C.nlit(inp['n'])} {C.nlit(inp['maxiter'])} {sel} {qbatch(inp['pool'])} {C.listlit(ups, qb)} "
+            f"{routs} None {C.qlit(inp['b1'])} {C.qlit(inp['b2'])} {C.qlit(inp['lr'])} {C.qlit(inp['eps'])} nil")
   tr = C.listlit(adam_tracks(inp, out), lambda t: "(mktr " + " ".join(C.listlit(x, C.qlit) for x in t) + ")")
   return (f"CAdam {domlit(inp)} {aflit(inp['af'])} {C.nlit(inp['n'])} {C.nlit(inp['maxiter'])} {sel} {qbatch(inp['pool'])} {C.listlit(ups, qb)} "
-          f"{obslit(out)} {C.qlit(inp['b1'])} {C.qlit(inp['b2'])} {C.qlit(inp['lr'])} {C.qlit(inp['eps'])} {tr}")
+          f"{routs} (Some {obslit(out)}) {C.qlit(inp['b1'])} {C.qlit(inp['b2'])} {C.qlit(inp['lr'])} {C.qlit(inp['eps'])} {tr}")
 
 
 HEADER = ("From Coq Require Import List QArith Bool.\nFrom LV Require Import Model.Optim Model.Multistart Model.OptimCorr.\n"
@@ -445,6 +496,16 @@ def branch(inp, out):
     tags.append("sel:" + ("none" if inp["selected"] is None else "more" if len(inp["selected"]) > inp["n"] else "le"))
     if inp["kind"] == "de":
       tags.append("best1" if inp["best1"] else "rand1")
+    if inp["af"].get("und"):
+      und = [[af_undefined(inp["af"], p) for p in b] for b in out["rec"]["evals"]]
+      flat = [u for b in und for u in b]
+      tags.append("af:undefined-nowhere-visited" if not any(flat) else "af:undefined-at-some-evaluated-points")
+      if und and any(und[0]):
+        tags.append("af:undefined-at-a-start")
+      if any(b and all(b) for b in und):
+        tags.append("af:a-batch-undefined-throughout")
+      if out.get("error") is None and any(v != v for v in out["vals"]):
+        tags.append("af:undefined-at-an-ending-point")
   else:
     tags.append(f"nm{min(inp['nm'], 2)}")
     if not out.get("error") and out["calls"] > max(inp["nm"], len(inp["selected"] or [])):
@@ -613,6 +674,9 @@ def in_domain(p, lb, ub, fixed, cons, tol=1e-9):
 
 
 def smooth_af(coef, p):
+  """a smooth real-valued objective; NaN (no value) on the half-spaces coef["und"] = [[k, t, above], ...] when that key is present"""
+  if any((p[k] > t) if above else (p[k] < t) for k, t, above in coef.get("und") or []):
+    return float("nan")
   return -sum(a * (x - c) ** 2 for a, c, x in zip(coef["a"], coef["c"], p)) + coef["s"] * math.sin(sum(p))
 
 
@@ -663,31 +727,39 @@ def oracle_vec(inp):
     par = L.AdamP(learning_rate=inp["lr"])
     opt = L.vo.AdamOptimizer(dom, af, inp["n"], optimizer_parameters=par, maxiter=inp["maxiter"])
   sel = None if inp["selected"] is None else numpy.array(inp["selected"], dtype=float).reshape(len(inp["selected"]), dim)
+  def fail(sig, what, observed=None, expected=None):
+    return dict(signature=f"C07:{inp['kind']}:{sig}", what=f"{inp['kind']}: {what}", input=inp, observed=observed, expected=expected,
+                oracle="recording wrapper + direct statement of the property")
   state = numpy.random.get_state()
   numpy.random.seed(inp["seed"])
   try:
     best, res = opt.optimize(selected_starts=sel)
+  except ValueError as e:
+    # numpy.nanargmax raises when the batch just evaluated has no value at all (the function is undefined at every point of it): nothing is
+    # returned, the clauses are void (reading in ASSUMPTIONS); any other ValueError on a valid input is a failure
+    if rec["evals"] and all(smooth_af(coef, p) != smooth_af(coef, p) for p in rec["evals"][-1]):
+      return None
+    return fail("raises:ValueError", f"raised ValueError: {e}", repr(e), "a result")
   finally:
     numpy.random.set_state(state)
-
-  def fail(sig, what, observed=None, expected=None):
-    return dict(signature=f"C07:{inp['kind']}:{sig}", what=f"{inp['kind']}: {what}", input=inp, observed=observed, expected=expected,
-                oracle="recording wrapper + direct statement of the property")
   allpts = [p for b in rec["evals"] for p in b]
   for p in allpts:
     if not in_domain(list(p), lb, ub, fixed, cons):
       return fail("evaluated-outside-domain", "the acquisition function was evaluated outside the domain", [float(x) for x in p])
   vals = [smooth_af(coef, p) for p in allpts]
-  imax = max(range(len(vals)), key=lambda i: (vals[i], -i))
-  if not any(numpy.array_equal(best, p) and v == vals[imax] for p, v in zip(allpts, vals)):   # ties: any evaluated maximiser satisfies the property
-    return fail("best-not-argmax", "the returned point is not an evaluated point of highest value", [float(x) for x in best],
-                [float(x) for x in allpts[imax]])
-  if opt.best_value != smooth_af(coef, best) or opt.best_value != vals[imax]:
+  have = [i for i in range(len(vals)) if vals[i] == vals[i]]     # the evaluated points that have a value (not NaN)
+  if not have:
+    return fail("returns-without-a-value", "optimize() returned although no evaluated point has a value", float(opt.best_value))
+  imax = max(have, key=lambda i: (vals[i], -i))
+  if not any(numpy.array_equal(best, allpts[i]) and vals[i] == vals[imax] for i in have):   # ties: any evaluated maximiser satisfies the property
+    return fail("best-not-argmax", "the returned point is not an evaluated point of highest value (among the evaluated points that have a value)",
+                [float(x) for x in best], [float(x) for x in allpts[imax]])
+  if not (opt.best_value == smooth_af(coef, best) and opt.best_value == vals[imax]):
     return fail("best-value-not-reproducible", "best_value differs from the acquisition function at best_location", float(opt.best_value), vals[imax])
   for p in rec["routs"][0]:
     if smooth_af(coef, p) > opt.best_value:
       return fail("below-restricted-start", "best_value is lower than the value at a restricted starting point", float(opt.best_value))
-  if not numpy.array_equal(res.function_values, numpy.array([smooth_af(coef, p) for p in res.ending_points])):
+  if not numpy.array_equal(res.function_values, numpy.array([smooth_af(coef, p) for p in res.ending_points]), equal_nan=True):
     return fail("results-not-reproducible", "reported function_values differ from re-evaluation at ending_points")
   if len(rec["evals"]) != (inp["maxiter"] + 2 if inp["kind"] == "de" else max(inp["maxiter"] - 1, 0) + 1):
     return fail("iteration-count", "number of evaluated batches differs from the iteration count", len(rec["evals"]))
@@ -893,37 +965,43 @@ def oracle_scripted(inp):
   def fail(sig, what, observed=None, expected=None):
     return dict(signature=f"C07:{inp['kind']}:{sig}", what=f"{inp['kind']} (scripted draws): {what}", input=inp, observed=observed, expected=expected,
                 oracle="recording wrapper + exact rational re-evaluation")
+  rec = out["rec"]
+  for p in [p for b in rec["evals"] for p in b]:
+    if not in_domain(list(p), inp["lb"], inp["ub"], inp["fixed"], inp["cons"]):
+      return fail("evaluated-outside-domain", "the acquisition function was evaluated outside the domain", [float(x) for x in p])
   if out["error"]:
     if inp["kind"] == "de" and inp["maxiter"] >= 1 and (inp["n"] < 2 or (inp["selected"] is not None and len(inp["selected"]) > inp["n"])):
       return None   # documented precondition
+    if rec["evals"] and all(af_undefined(inp["af"], p) for p in rec["evals"][-1]):
+      return None   # the batch just evaluated has no value at all: numpy.nanargmax raises, nothing is returned (reading in ASSUMPTIONS)
     return fail("raises:ValueError", f"raised ValueError: {out['msg']}")
-  rec = out["rec"]
   allpts = [p for b in rec["evals"] for p in b]
-  for p in allpts:
-    if not in_domain(list(p), inp["lb"], inp["ub"], inp["fixed"], inp["cons"]):
-      return fail("evaluated-outside-domain", "the acquisition function was evaluated outside the domain", [float(x) for x in p])
   if rec.get("prior_evals"):   # a re-used optimiser keeps its best-so-far: the best is taken over everything the object ever evaluated
     allpts = [p for b in rec["prior_evals"] for p in b] + allpts
-  vals = [af_exact(inp["af"], p)[0] for p in allpts]
-  imax = max(range(len(vals)), key=lambda i: (vals[i], -i))
-  if not any(numpy.array_equal(out["best"], p) and v == vals[imax] for p, v in zip(allpts, vals)):
-    return fail("best-not-argmax", "the returned point is not an evaluated point of highest value", [float(x) for x in out["best"]],
-                [float(x) for x in allpts[imax]])
-  if fr(out["best_value"]) != vals[imax]:
+  vals = [af_exact(inp["af"], p)[0] for p in allpts]      # None where the function is undefined (NaN): such a point has no value
+  have = [i for i in range(len(vals)) if vals[i] is not None]
+  if not have:
+    return fail("returns-without-a-value", "optimize() returned although no evaluated point has a value", out["best_value"])
+  imax = max(have, key=lambda i: (vals[i], -i))
+  if not any(numpy.array_equal(out["best"], allpts[i]) and vals[i] == vals[imax] for i in have):
+    return fail("best-not-argmax", "the returned point is not an evaluated point of highest value (among the evaluated points that have a value)",
+                [float(x) for x in out["best"]], [float(x) for x in allpts[imax]])
+  if out["best_value"] != out["best_value"] or fr(out["best_value"]) != vals[imax]:
     return fail("best-value-not-reproducible", "best_value differs from the acquisition function at best_location", out["best_value"], float(vals[imax]))
-  if any(af_exact(inp["af"], p)[0] > vals[imax] for p in rec["routs"][0]):
+  if any(v is not None and v > vals[imax] for v in (af_exact(inp["af"], p)[0] for p in rec["routs"][0])):
     return fail("below-restricted-start", "best_value is lower than the value at a restricted starting point")
   if inp["selected"] is not None and not inp["cons"] and not (inp["kind"] == "de" and inp["maxiter"] >= 1 and len(inp["selected"]) > inp["n"]):
     # every SUPPLIED start counts, however many there are: on a box the restriction is the coordinate-wise clip followed by the fixed coordinates
     fx = {int(k): v for k, v in inp["fixed"]}
     for st in inp["selected"]:
       q = [fx[j] if j in fx else min(max(x, l), u) for j, (x, l, u) in enumerate(zip(st, inp["lb"], inp["ub"]))]
-      if af_exact(inp["af"], q)[0] > vals[imax]:
+      vq = af_exact(inp["af"], q)[0]
+      if vq is not None and vq > vals[imax]:
         return fail("below-supplied-start", "best_value is lower than the value at a supplied starting point restricted to the box", [float(x) for x in q], float(vals[imax]))
   want = inp["maxiter"] + 2 if inp["kind"] == "de" else max(inp["maxiter"] - 1, 0) + 1
   if len(rec["evals"]) != want:
     return fail("iteration-count", "number of evaluated batches differs from the iteration count", len(rec["evals"]), want)
-  if [fr(v) for v in out["vals"]] != [af_exact(inp["af"], p)[0] for p in out["end"]]:
+  if [None if v != v else fr(v) for v in out["vals"]] != [af_exact(inp["af"], p)[0] for p in out["end"]]:
     return fail("results-not-reproducible", "reported function_values differ from re-evaluation at ending_points")
   if inp["kind"] == "de":
     pops = [p for p in rec["pop_at_eval"][1:]] + [out["end"]]
@@ -932,7 +1010,8 @@ def oracle_scripted(inp):
       for j in range(len(before)):
         if numpy.array_equal(after[j], before[j]):
           continue
-        if not numpy.array_equal(after[j], trial[j]) or af_exact(inp["af"], after[j])[0] < af_exact(inp["af"], before[j])[0]:
+        va, vb = af_exact(inp["af"], after[j])[0], af_exact(inp["af"], before[j])[0]
+        if not numpy.array_equal(after[j], trial[j]) or (va is not None and vb is not None and va < vb):
           return fail("replaced-by-worse", "a population member was replaced by a worse point (or by something that is not its trial)",
                       dict(iteration=t, member=j))
   else:
@@ -1013,6 +1092,12 @@ def gen_search(rng):
   if sel is not None and len(sel) == 0:
     sel = None
   inp = dict(kind=kind, lb=lb, ub=ub, fixed=fx, cons=cons, coef=coef, n=n, maxiter=rng.randint(0, 12), selected=sel, seed=rng.randrange(2 ** 31))
+  if kind != "ms" and rng.random() < 0.35:
+    # a partial objective: no value (NaN) beyond a threshold in one coordinate - often right next to the maximiser, so that good candidates
+    # and undefined ones share a batch - at the lower or the upper side
+    k = rng.randrange(dim)
+    t = rng.choice([coef["c"][k] + rng.choice([-1, 1]) * 0.05 * (ub[k] - lb[k]), rng.uniform(lb[k], ub[k])])
+    coef["und"] = [[k, float(min(max(t, lb[k]), ub[k])), rng.random() < 0.5]]
   if kind == "de":
     inp.update(best1=rng.random() < 0.5, F=rng.uniform(0.1, 1.5), CR=rng.uniform(0.0, 1.0))
   elif kind == "adam":
@@ -1052,6 +1137,10 @@ def search(ctx, hints, broken):
     inp = gen_search(rng)
     n += 1
     add(oracle(inp))
+    if inp["kind"] == "ms" and inp["cons"] and inp["slsqp"]:
+      # "all optimizer parameters": the same constrained runs with the other way of supplying the gradient to SLSQP (analytic / finite differences)
+      n += 1
+      add(oracle(dict(inp, approx_grad=not inp.get("approx_grad"))))
     if len(fails) >= 4:
       break
   return dict(evaluations=n, failures=fails,
@@ -1080,3 +1169,11 @@ LEVEL_TEXT += ("; the multistart clause in full (per-start outcome lists, first 
                "SLSQP is the user constraint tightened by 1e-8 |rhs| with the weight vector as Jacobian (Model/ScipyCons.v, exact correspondence on "
                "get_constraints_for_scipy)")
 LEVEL_NOTE += "; SLSQP itself is a contract (its accuracy acc = ftol), see DESIGN 11.5"
+
+# --- gap round A: acquisition functions that are undefined (NaN) at some points
+LEVEL_TEXT += ("; the acquisition function of the model is partial (point -> option Q, None = NaN): numpy.nanargmax is modelled as the first maximum of the "
+               "defined values, a batch without a defined value is the error value ValueError (C07_monitor_raises_only_without_a_value), the theorems "
+               "range over every partial function: the result has a value and it is the highest evaluated one, starts and members without a value "
+               "impose nothing, a trial without a value never replaces a member; the correspondence scripts functions undefined on half-spaces")
+LEVEL_NOTE += ("; reading: 'all deterministic acquisition functions' includes functions undefined (NaN) at some points (the code's nanargmax anticipates "
+               "them); a batch that is undefined throughout raises ValueError (void case); infinite values are not modelled")
